@@ -90,7 +90,7 @@ func c01Run(c c01Case) (*eng.Fail, bool) {
 	}
 	m := rvx.RefRun(c.Cfg, c.Word, name, c.PC, pre)
 	if cls, diff := rvx.Compare(c.Cfg, post, m, c.PC, pre); cls != "" {
-		return &eng.Fail{Sig: tag + " " + cls, What: fmt.Sprintf("%s: %s (%08x, %q) at %#x with rs1=%#x rs2=%#x: %s", c.Cfg, name, c.Word, in.Details.String(), c.PC, pre.X[c.Word>>15&31], pre.X[c.Word>>20&31], diff), Case: c}, true
+		return &eng.Fail{Sig: tag + " " + cls, What: fmt.Sprintf("%s: %s (%08x, %q) at %#x with rs1=%#x rs2=%#x: %s", c.Cfg, name, c.Word, detailsText(in), c.PC, pre.X[c.Word>>15&31], pre.X[c.Word>>20&31], diff), Case: c}, true
 	}
 	return nil, true
 }
